@@ -127,6 +127,12 @@ func applyEvil(r *Run, o *stubOrigin, kind string) {
 					st.tracks = append(st.tracks, &cp)
 				}
 			}
+		case "init-timescale":
+			// the init section declares a degenerate timescale for one track (0, 1, the largest value)
+			if st.container == "fmp4" && len(st.tracks) > 0 {
+				v := uint32(Pick(T, 0, 0, 1, 0xffffffff))
+				st.tracks[Pick(T, 0, 0, T.Intn(len(st.tracks)))].initScale = &v
+			}
 		case "huge-times":
 			for _, t := range st.tracks {
 				for i, u := range t.units {
@@ -410,7 +416,7 @@ func scC13(spot bool) Scenario {
 		evil := "none"
 		if !spot || T.Chance(1, 3) {
 			evil = Pick(T, "unsupported-codec-extra", "unsupported-codec-extra", "unsupported-codec-only", "unsupported-codec-first",
-				"track-id-permutation", "no-leading-data", "many-tracks", "huge-times", "mixed-containers", "rendition-two-tracks", "audio-group-missing", "empty-fragments", "empty-fragments")
+				"track-id-permutation", "no-leading-data", "many-tracks", "huge-times", "mixed-containers", "rendition-two-tracks", "audio-group-missing", "empty-fragments", "empty-fragments", "init-timescale")
 			applyEvil(r, o, evil)
 		}
 		// byte-level damage at chosen request positions
